@@ -1101,10 +1101,11 @@ class MoneyConverter:
             raise ValueError('Different types of validity periods given.')
         # create all rates before changing anything
         base_currency = self._base_currency
-        rates = [((validity, term_currency),
-                  ExchangeRate(base_currency, unit_multiple, term_currency,
-                               term_amount))
-                 for term_currency, term_amount, unit_multiple in rate_specs]
+        rates = [((validity, rate.term_currency), rate)
+                 for rate in (ExchangeRate(base_currency, unit_multiple,
+                                           term_currency, term_amount)
+                              for term_currency, term_amount, unit_multiple
+                              in rate_specs)]
         # update internal dict
         self._type_of_validity = type(validity)
         self._rate_dict.update(rates)
